@@ -17,7 +17,7 @@ BOUNDS = {
     "quick": "F<=3 frames, N<=2 particles (N=3 for cage-relative), d in {2,3}; all positions, diameters, cutoff factor a, qconst and dt "
              "symbolic; slow and fast; with / without per-frame selections (concrete masks of constant size) and neighbour "
              "files (concrete topology); log variant; wrapped == unwrapped for concrete cells and integer images; S4 for F=2,3",
-    "thorough": "as quick with F=4, N=3",
+    "thorough": "as quick with F<=5, N<=4, d=3 with N=3",
 }
 STUBS = ["cos of a displacement phase -> structural (c,s) cache", "np.rint -> function symbol + lemma instances (wrapped run)",
          "S4: default wave vectors from the real choosewavevector; phases through the (c,s) cache"]
@@ -289,6 +289,11 @@ def cfg_relax(tier, seed):
     if tier == "thorough":
         out.append(dict(d=2, N=3, F=4, mode="slow", types=[1, 2, 2]))
         out.append(dict(d=3, N=3, F=3, mode="fast", types=[2, 1, 1], topo=[[1, 2], [0, 2], [1]]))
+        out.append(dict(d=2, N=3, F=5, mode="fast", types=[1, 2, 1]))
+        out.append(dict(d=3, N=3, F=4, mode="slow", types=[1, 1, 2]))
+        out.append(dict(d=2, N=4, F=3, mode="slow", types=[1, 2, 2, 1], topo=[[1, 2, 3], [0], [3, 0], [1]]))
+        out.append(dict(d=2, N=3, F=4, mode="slow", types=[1, 2, 1], log=True, steps=[3, 4, 9, 30]))
+        out.append(dict(d=2, N=4, F=3, mode="fast", types=[1, 1, 2, 2], masks=[[True, True, False, False], [False, True, True, False], [True, False, False, True]]))
     return out
 
 
